@@ -162,6 +162,9 @@ c.may_raise.append(("Exception", None))
 # threading / multiprocessing primitives used by the executor
 S.ghost("fut_n_exc", z3.ArraySort(T.IntS, T.IntS), "per future: number of set_exception calls")
 S.ghost("fut_exc", z3.ArraySort(T.IntS, T.IntS), "per future: the exception last set", elem="obj")
+S.ghost("fut_running", z3.ArraySort(T.IntS, T.BoolS), "per future: set RUNNING by set_running_or_notify_cancel() (it can then no longer be cancelled)")
+S.ghost("fut_refused", z3.ArraySort(T.IntS, T.IntS), "per future: number of set_result/set_exception calls refused with InvalidStateError (already cancelled or finished)")
+S.ghost("fut_exc_cls", z3.ArraySort(T.IntS, T.IntS), "per future: class id of the exception last set (recorded when it was set)")
 S.ghost("fut_n_res", z3.ArraySort(T.IntS, T.IntS), "per future: number of set_result calls")
 S.ghost("fut_res", z3.ArraySort(T.IntS, T.IntS), "per future: the result last set", elem="obj")
 S.ghost("joined", z3.ArraySort(T.IntS, T.BoolS), "processes on which join() was called")
@@ -228,29 +231,63 @@ for LK in ("threading.Lock", "threading.RLock", "MPLock"):
 S.cls("Future", {}, external=True)
 
 
-@_impl("Future.set_exception", cite="concurrent.futures.Future.set_exception(exc): resolves the future with exc and runs the callbacks (which loky's Future shields)")
+def _fut_refusal(eng, st, self_v, node, tag):
+    """InvalidStateError outcome of set_result / set_exception: possible unless the future is known RUNNING and unresolved
+    (a PENDING future may have been cancelled by its owner at any time; a finished one refuses for sure)."""
+    done = z3.Select(st.ghost_get("fut_n_exc"), self_v.t) + z3.Select(st.ghost_get("fut_n_res"), self_v.t) >= 1
+    can_fail = z3.Or(z3.Not(z3.Select(st.ghost_get("fut_running"), self_v.t)), done)
+    s = st.clone()
+    s.assume(can_fail)
+    g = s.ghost_get("fut_refused")
+    s.ghost_set("fut_refused", z3.Store(g, self_v.t, z3.Select(g, self_v.t) + 1))
+    s.emit(tag, [self_v], eng.site(node))
+    st.assume(z3.Not(done))
+    return eng.raise_new(s, "concurrent.futures.InvalidStateError")
+
+
+@_impl("Future.set_exception", cite="concurrent.futures.Future.set_exception(exc): resolves the future with exc and runs the callbacks (which loky's Future shields); "
+                                    "InvalidStateError when the future is already cancelled or finished")
 def _fut_set_exc(eng, st, self_v, args, kwargs, node):
     e = args[0]
     from pyvc.values import to_obj_term
+    out = [_fut_refusal(eng, st, self_v, node, "set_exception_refused")]
     n = st.ghost_get("fut_n_exc")
     st.ghost_set("fut_n_exc", z3.Store(n, self_v.t, z3.Select(n, self_v.t) + 1))
     st.ghost_set("fut_exc", z3.Store(st.ghost_get("fut_exc"), self_v.t, to_obj_term(e)))
+    from pyvc.values import VRef as _VR, VObj as _VO
+    if isinstance(e, (_VR, _VO)):
+        ecls, _ = st.read_field(_VR(e.t, "<exc>"), "cls")
+        st.ghost_set("fut_exc_cls", z3.Store(st.ghost_get("fut_exc_cls"), self_v.t, ecls.t))
     st.emit("set_exception", [self_v, e], eng.site(node))
-    return [eng.val(st, NONE)]
+    out.append(eng.val(st, NONE))
+    return out
 
 
-@_impl("Future.set_result", cite="concurrent.futures.Future.set_result(r)")
+@_impl("Future.set_result", cite="concurrent.futures.Future.set_result(r); InvalidStateError when the future is already cancelled or finished")
 def _fut_set_res(eng, st, self_v, args, kwargs, node):
     from pyvc.values import to_obj_term
+    out = [_fut_refusal(eng, st, self_v, node, "set_result_refused")]
     n = st.ghost_get("fut_n_res")
     st.ghost_set("fut_n_res", z3.Store(n, self_v.t, z3.Select(n, self_v.t) + 1))
     st.ghost_set("fut_res", z3.Store(st.ghost_get("fut_res"), self_v.t, to_obj_term(args[0])))
     st.emit("set_result", [self_v, args[0]], eng.site(node))
-    return [eng.val(st, NONE)]
+    out.append(eng.val(st, NONE))
+    return out
 
 
-c = S.ext("Future.set_running_or_notify_cancel", cite="Future.set_running_or_notify_cancel(): False iff the future was cancelled (then it can never run), True and RUNNING otherwise")
-c.param("self", T.Ref("Future")).returns(T.Bool).event("set_running", "self", "result").modifies()
+@_impl("Future.set_running_or_notify_cancel", cite="Future.set_running_or_notify_cancel(): False iff the future was cancelled (then it can never run), True and RUNNING otherwise")
+def _fut_set_running(eng, st, self_v, args, kwargs, node):
+    from pyvc.values import fresh_name
+    ok = z3.Bool(fresh_name("set_running"))
+    out = []
+    for b, s in eng.branch(st, ok):
+        if b:
+            s.ghost_set("fut_running", z3.Store(s.ghost_get("fut_running"), self_v.t, z3.BoolVal(True)))
+        s.emit("set_running", [self_v, VBool(b)], eng.site(node))
+        out.append(eng.val(s, VBool(b)))
+    return out
+
+
 c = S.ext("Future", cite="Future(): a new pending future")
 c.returns(T.Ref("Future"), fresh=True).modifies()
 S.classes["Future"].module = "loky._base"
